@@ -109,8 +109,11 @@ def run(ctx):
         "generated schemas are well-formed (SchemaAST!WF) incl. DESIGN 3 caveats (ii) by-value struct fields hold properties that are "
         "required, defaulted or treat-empty-as-default, (iii) distinct unit names",
         "equality identifies nil and empty slices / maps, container representations ([]any vs []T), NaN with NaN",
-        "raw values whose acceptance the statement leaves open (two raw keys for one key, lenient unit strings, named types) are "
-        "chained when the code accepts them; typed-vs-untyped RESULTS are compared only where the statement fixes the result",
+        "raw values whose acceptance the statement leaves open (lenient unit strings, named types) are chained when the code "
+        "accepts them; typed-vs-untyped RESULTS are compared only where the statement fixes the result; typed-vs-untyped VERDICTS "
+        "are compared on every vector, also where both must reject (every C01 scalar schema x the raw values the statement "
+        "rejects, every bounded float schema x NaN / +-Inf as float64 / float32 / string), and ValidateType / SerializeType are "
+        "run on the raw value itself whenever it is of the entry points' Go type",
         "the CBOR transport is fxamacker/cbor/v2 with default modes (Encoder.Encode, Unmarshal into any), as in /repo/atp",
     ]
 
